@@ -163,7 +163,10 @@ def decode_object(cur: Cursor, depth: int = 0, char_unit: str = 'byte') -> Node:
     value: char -> list[bytes]; numeric -> flat ndarray (file order); logical ->
     list[bool]; cell -> list[Node]; struct -> list[dict name -> Node].
     ``char_unit='utf8char'`` is a *diagnostic* reading (length fields counted in
-    characters instead of bytes); the format is ``'byte'``.
+    characters instead of bytes); the format is ``'byte'``.  A second diagnostic
+    reading is switched on by ``cur.alt = {'at': k, 'itemsize': 4, 'seen': 0}``: the
+    k-th f64-tagged array met is read with 4 instead of 8 bytes per element (its
+    offset / shape are left in ``cur.alt['hit']``).
     """
     if depth > MAX_DEPTH:
         raise DecodeError('nesting too deep', cur.pos)
@@ -190,7 +193,15 @@ def decode_object(cur: Cursor, depth: int = 0, char_unit: str = 'byte') -> Node:
             else:
                 value = [_take_utf8_chars(cur, each) for _ in range(k)]
     elif tag in _NUMERIC:
-        value = cur.array(_NUMERIC[tag], n)
+        code = _NUMERIC[tag]
+        alt = getattr(cur, 'alt', None)
+        if alt is not None and tag == 3:
+            k = alt['seen']
+            alt['seen'] = k + 1
+            if k == alt['at']:
+                code = {4: 'f4'}[alt['itemsize']]
+                alt['hit'] = (offset, shape)
+        value = cur.array(code, n)
     elif tag == 0:
         value = [b != 0 for b in cur.take(n)]
     elif tag == 23:
@@ -345,10 +356,13 @@ def decode_dnd(cur: Cursor) -> dict:
     return {'lengths': lengths, 'values': values, 'errors': errors, 'counts': counts}
 
 
-def decode_block(buf, d: Descriptor, bo: str, char_unit: str = 'byte') -> Block:
-    """Decode the extent of ``d`` as a block of its declared type."""
+def decode_block(buf, d: Descriptor, bo: str, char_unit: str = 'byte', alt=None) -> Block:
+    """Decode the extent of ``d`` as a block of its declared type (``alt``: diagnostic
+    reading of one f64 array, see decode_object)."""
     b = Block(d)
     cur = Cursor(buf, d.position, d.position + d.size, bo)
+    if alt is not None:
+        cur.alt = alt
     try:
         if d.position > len(buf):
             raise DecodeError('extent starts beyond end of file', d.position)
